@@ -1,4 +1,5 @@
-// Engine C04 — from a generated program to a compiled eino graph, and the type-erased
+// Engine C04 — from a generated program to a compiled eino graph (through the Graph API, a
+// Workflow with field mappings, or a Chain), and the type-erased
 // runner that calls its four paradigms.
 package main
 
@@ -19,6 +20,7 @@ type CSpec struct {
 	ID      int  `json:"id"`
 	Collect bool `json:"collect"` // NewStreamGraphBranch (Collect native) instead of NewGraphBranch (Invoke native)
 	Fail    bool `json:"fail"`
+	Bound   int  `json:"bound,omitempty"` // loop condition: run the body again while the value is shorter than this
 }
 
 type Wrap struct {
@@ -28,14 +30,48 @@ type Wrap struct {
 	Post *NSpec `json:"post,omitempty"`
 }
 
+// FEntry is one field mapping into a map-typed input: the predecessor's whole output
+// (From nil: ToField) or its field From (MapFields) goes to field To.
+type FEntry struct {
+	From *int `json:"from,omitempty"`
+	To   int  `json:"to"`
+}
+
+// FMap is the field mapping carried by the data edges that leave a node (Workflow only):
+// To (the successor's input is a map) or Take (FromField: the successor's input is that field).
+type FMap struct {
+	To   []FEntry `json:"to,omitempty"`
+	Take *int     `json:"take,omitempty"`
+}
+
 type Prog struct {
-	Op   string  `json:"op"` // node | seq | par | branch | sub
-	W    *Wrap   `json:"w,omitempty"`
-	N    *NSpec  `json:"n,omitempty"`
-	C    *CSpec  `json:"c,omitempty"`
-	ID   int     `json:"id,omitempty"` // sub: node key
-	Kids []*Prog `json:"kids,omitempty"`
-	DAG  bool    `json:"dag,omitempty"` // sub: trigger mode of the nested graph
+	Op     string  `json:"op"` // node | seq | par | branch | sub | loop (Graph API, any-predecessor mode: C = condition, Kids[0] = body)
+	W      *Wrap   `json:"w,omitempty"`
+	N      *NSpec  `json:"n,omitempty"`
+	C      *CSpec  `json:"c,omitempty"`
+	ID     int     `json:"id,omitempty"` // sub: node key
+	Kids   []*Prog `json:"kids,omitempty"`
+	DAG    bool    `json:"dag,omitempty"`   // sub: trigger mode of the nested graph
+	Front  string  `json:"front,omitempty"` // sub: how the nested graph is built ("" = Graph API, wf, chain)
+	OutMap *FMap   `json:"outmap,omitempty"` // node | sub, Workflow only: mapping on the outgoing data edges
+}
+
+func (f *FMap) mappings() []*compose.FieldMapping {
+	if f == nil {
+		return nil
+	}
+	if f.Take != nil {
+		return []*compose.FieldMapping{compose.FromField(keyStr(*f.Take))}
+	}
+	var out []*compose.FieldMapping
+	for _, e := range f.To {
+		if e.From == nil {
+			out = append(out, compose.ToField(keyStr(e.To)))
+		} else {
+			out = append(out, compose.MapFields(keyStr(*e.From), keyStr(e.To)))
+		}
+	}
+	return out
 }
 
 // static types: false = string, true = map[string]any
@@ -56,13 +92,22 @@ func (p *Prog) inMap() bool {
 	}
 }
 
+// type of the value the successors of p receive
 func (p *Prog) outMap() bool {
+	if p.OutMap != nil {
+		return p.OutMap.Take == nil
+	}
+	return p.rawOutMap()
+}
+
+// type of the value p itself produces (before any field mapping on its outgoing edges)
+func (p *Prog) rawOutMap() bool {
 	switch p.Op {
 	case "node":
 		if p.W != nil && p.W.Out != nil {
 			return true
 		}
-		return p.N.outMap()
+		return p.N.seenOutMap()
 	case "sub":
 		if p.W != nil && p.W.Out != nil {
 			return true
@@ -82,6 +127,8 @@ func (p *Prog) plen() (int, int) {
 	switch p.Op {
 	case "node", "sub":
 		return 1, 1
+	case "loop":
+		return p.Kids[0].plen()
 	case "seq":
 		a, b := 0, 0
 		for _, k := range p.Kids {
@@ -111,6 +158,8 @@ func (p *Prog) balanced() bool {
 	switch p.Op {
 	case "node":
 		return true
+	case "loop":
+		return p.Kids[0].balanced()
 	case "sub":
 		return true // own graph, own mode
 	case "par":
@@ -182,7 +231,10 @@ func handlerOptT[T any](h *NSpec, pre bool, rec *recorder) compose.GraphAddNodeO
 	return compose.WithStatePostHandler(f)
 }
 
-func (p *Prog) wrapOpts(rec *recorder) []compose.GraphAddNodeOpt {
+func (p *Prog) wrapOpts(rec *recorder) []compose.GraphAddNodeOpt { return p.wrapOptsNoOut(rec, false) }
+
+// dropOut: the output key is given to the front end itself (Parallel.AddLambda(outputKey, ...))
+func (p *Prog) wrapOptsNoOut(rec *recorder, dropOut bool) []compose.GraphAddNodeOpt {
 	var opts []compose.GraphAddNodeOpt
 	w := p.W
 	if w == nil {
@@ -191,19 +243,39 @@ func (p *Prog) wrapOpts(rec *recorder) []compose.GraphAddNodeOpt {
 	if w.In != nil {
 		opts = append(opts, compose.WithInputKey(keyStr(*w.In)))
 	}
-	if w.Out != nil {
+	if w.Out != nil && !dropOut {
 		opts = append(opts, compose.WithOutputKey(keyStr(*w.Out)))
 	}
 	if w.Pre != nil {
 		opts = append(opts, handlerOpt(w.Pre, p.inMap(), true, rec))
 	}
 	if w.Post != nil {
-		opts = append(opts, handlerOpt(w.Post, p.outMap(), false, rec))
+		opts = append(opts, handlerOpt(w.Post, p.rawOutMap(), false, rec))
 	}
 	return opts
 }
 
 func nodeKey(id int) string { return fmt.Sprintf("n%d", id) }
+
+// compile options of a nested graph (Graph API front end only: trigger mode, step budget for loops)
+func (p *Prog) subCompileOpts() []compose.GraphAddNodeOpt {
+	if p.Front != "" {
+		return nil
+	}
+	var copts []compose.GraphCompileOption
+	if p.DAG {
+		copts = append(copts, compose.WithNodeTriggerMode(compose.AllPredecessor))
+	} else if p.Kids[0].hasLoop() {
+		copts = append(copts, compose.WithMaxRunSteps(maxLoopSteps))
+	}
+	if len(copts) == 0 {
+		return nil
+	}
+	return []compose.GraphAddNodeOpt{compose.WithGraphCompileOptions(copts...)}
+}
+
+// generous: a loop ends after at most Bound rounds (every node makes the value longer)
+const maxLoopSteps = 5000
 
 func mkBranch(c *CSpec, isMap bool, targets []string, rec *recorder) *compose.GraphBranch {
 	if isMap {
@@ -245,10 +317,96 @@ func mkBranchT[T any](c *CSpec, targets []string, rec *recorder) *compose.GraphB
 
 // build adds p to g. from = predecessors to connect (nil: the caller connects the returned
 // entries itself). Returns entry and exit node keys.
-func build(g gAPI, p *Prog, from []string, rec *recorder) (entries, exits []string, err error) {
+// loops of the graph under construction: the exit node of a loop body reaches its
+// successor (and the body's entry) through the loop's branch, not through an edge
+type loopInfo struct {
+	c       *CSpec
+	entry   string
+	exit    string
+	targets []string
+}
+
+type loopBuild struct {
+	byExit map[string]*loopInfo
+	all    []*loopInfo
+}
+
+func (lb *loopBuild) edge(g gAPI, from, to string) error {
+	if li := lb.byExit[from]; li != nil {
+		li.targets = append(li.targets, to)
+		return nil
+	}
+	return g.AddEdge(from, to)
+}
+
+func (lb *loopBuild) finish(g gAPI, rec *recorder) error {
+	for _, li := range lb.all {
+		if len(li.targets) != 1 {
+			return errors.New("harness: a loop needs exactly one successor")
+		}
+		if err := g.AddBranch(li.exit, mkLoopBranch(li.c, li.entry, li.targets[0], rec)); err != nil {
+			return err
+		}
+	}
+	return nil
+}
+
+func mkLoopBranch(c *CSpec, entry, next string, rec *recorder) *compose.GraphBranch {
+	ends := map[string]bool{entry: true, next: true}
+	pick := func(x any) (string, error) {
+		if c.Fail {
+			return "", errNode
+		}
+		if sizeVal(x) < c.Bound {
+			return entry, nil
+		}
+		return next, nil
+	}
+	if c.Collect {
+		return compose.NewStreamGraphBranch(func(ctx context.Context, in *schema.StreamReader[string]) (string, error) {
+			rec.add(c.ID, "C")
+			cs, err := readAll(in)
+			if err != nil {
+				return "", err
+			}
+			x, err := concatAny(cs)
+			if err != nil {
+				return "", err
+			}
+			return pick(x)
+		}, ends)
+	}
+	return compose.NewGraphBranch(func(ctx context.Context, in string) (string, error) {
+		rec.add(c.ID, "I")
+		return pick(any(in))
+	}, ends)
+}
+
+func (p *Prog) hasLoop() bool {
+	found := false
+	p.walkOwn(func(q *Prog) {
+		if q.Op == "loop" {
+			found = true
+		}
+	})
+	return found
+}
+
+// walkOwn: like walk, without descending into nested graphs
+func (p *Prog) walkOwn(f func(*Prog)) {
+	f(p)
+	if p.Op == "sub" {
+		return
+	}
+	for _, k := range p.Kids {
+		k.walkOwn(f)
+	}
+}
+
+func build(g gAPI, p *Prog, from []string, rec *recorder, lb *loopBuild) (entries, exits []string, err error) {
 	connect := func(key string) error {
 		for _, f := range from {
-			if e := g.AddEdge(f, key); e != nil {
+			if e := lb.edge(g, f, key); e != nil {
 				return e
 			}
 		}
@@ -264,14 +422,12 @@ func build(g gAPI, p *Prog, from []string, rec *recorder) (entries, exits []stri
 	case "sub":
 		key := nodeKey(p.ID)
 		var sub compose.AnyGraph
-		sub, err = newGraph(p.Kids[0], rec)
+		sub, err = newGraph(p.Kids[0], p.Front, rec)
 		if err != nil {
 			return
 		}
 		opts := p.wrapOpts(rec)
-		if p.DAG {
-			opts = append(opts, compose.WithGraphCompileOptions(compose.WithNodeTriggerMode(compose.AllPredecessor)))
-		}
+		opts = append(opts, p.subCompileOpts()...)
 		if err = g.AddGraphNode(key, sub, opts...); err != nil {
 			return
 		}
@@ -280,7 +436,7 @@ func build(g gAPI, p *Prog, from []string, rec *recorder) (entries, exits []stri
 		cur := from
 		for i, k := range p.Kids {
 			var en, ex []string
-			en, ex, err = build(g, k, cur, rec)
+			en, ex, err = build(g, k, cur, rec, lb)
 			if err != nil {
 				return
 			}
@@ -293,7 +449,7 @@ func build(g gAPI, p *Prog, from []string, rec *recorder) (entries, exits []stri
 	case "par":
 		for _, k := range p.Kids {
 			var en, ex []string
-			en, ex, err = build(g, k, from, rec)
+			en, ex, err = build(g, k, from, rec, lb)
 			if err != nil {
 				return
 			}
@@ -301,14 +457,27 @@ func build(g gAPI, p *Prog, from []string, rec *recorder) (entries, exits []stri
 			exits = append(exits, ex...)
 		}
 		return
+	case "loop":
+		var en, ex []string
+		en, ex, err = build(g, p.Kids[0], from, rec, lb)
+		if err != nil {
+			return
+		}
+		if len(en) != 1 || len(ex) != 1 {
+			return nil, nil, errors.New("harness: a loop body needs one entry and one exit node")
+		}
+		li := &loopInfo{c: p.C, entry: en[0], exit: ex[0]}
+		lb.byExit[ex[0]] = li
+		lb.all = append(lb.all, li)
+		return en, ex, nil
 	case "branch":
-		if len(from) != 1 {
-			return nil, nil, errors.New("harness: a branch needs exactly one predecessor")
+		if len(from) != 1 || lb.byExit[from[0]] != nil {
+			return nil, nil, errors.New("harness: a branch needs exactly one predecessor (not a loop exit)")
 		}
 		var targets []string
 		for _, k := range p.Kids {
 			var en, ex []string
-			en, ex, err = build(g, k, nil, rec)
+			en, ex, err = build(g, k, nil, rec, lb)
 			if err != nil {
 				return
 			}
@@ -324,33 +493,289 @@ func build(g gAPI, p *Prog, from []string, rec *recorder) (entries, exits []stri
 	return nil, nil, errors.New("harness: bad op " + p.Op)
 }
 
-func newGraph(p *Prog, rec *recorder) (compose.AnyGraph, error) {
+func newGraph(p *Prog, front string, rec *recorder) (compose.AnyGraph, error) {
 	switch {
 	case !p.inMap() && !p.outMap():
-		g, _, err := newGraphT[string, string](p, rec)
+		g, _, err := newAnyT[string, string](p, front, rec)
 		return g, err
 	case p.inMap() && !p.outMap():
-		g, _, err := newGraphT[map[string]any, string](p, rec)
+		g, _, err := newAnyT[map[string]any, string](p, front, rec)
 		return g, err
 	case !p.inMap() && p.outMap():
-		g, _, err := newGraphT[string, map[string]any](p, rec)
+		g, _, err := newAnyT[string, map[string]any](p, front, rec)
 		return g, err
 	default:
-		g, _, err := newGraphT[map[string]any, map[string]any](p, rec)
+		g, _, err := newAnyT[map[string]any, map[string]any](p, front, rec)
 		return g, err
 	}
 }
 
+type compilable[I, O any] interface {
+	Compile(ctx context.Context, opts ...compose.GraphCompileOption) (compose.Runnable[I, O], error)
+}
+
+// newAnyT builds p through the chosen front end: the Graph API, a Workflow or a Chain.
+func newAnyT[I, O any](p *Prog, front string, rec *recorder) (compose.AnyGraph, compilable[I, O], error) {
+	switch front {
+	case "wf":
+		wf := compose.NewWorkflow[I, O](compose.WithGenLocalState(genState))
+		_, exits, err := buildWF(wf, p, []exitRef{{key: compose.START}}, rec)
+		if err != nil {
+			return nil, nil, err
+		}
+		end := wf.End()
+		for _, e := range exits {
+			end.AddInput(e.key, e.maps...)
+		}
+		return wf, wf, nil
+	case "chain":
+		ch := compose.NewChain[I, O](compose.WithGenLocalState(genState))
+		if err := buildChain(ch, p, rec); err != nil {
+			return nil, nil, err
+		}
+		return ch, ch, nil
+	}
+	g, gg, err := newGraphT[I, O](p, rec)
+	return g, gg, err
+}
+
+// ---------------------------------------------------------------- Workflow front end
+
+type wfAPI interface {
+	AddLambdaNode(key string, lambda *compose.Lambda, opts ...compose.GraphAddNodeOpt) *compose.WorkflowNode
+	AddGraphNode(key string, graph compose.AnyGraph, opts ...compose.GraphAddNodeOpt) *compose.WorkflowNode
+	AddBranch(fromNodeKey string, branch *compose.GraphBranch) *compose.WorkflowBranch
+}
+
+// a predecessor to take the input from, with the field mappings of that data edge
+type exitRef struct {
+	key  string
+	maps []*compose.FieldMapping
+}
+
+// buildWF adds p to the workflow; every entry node takes its input from all of `from`.
+// viaBranch: the entries are the end nodes of a branch on from[0] (data without a direct
+// execution dependency: the branch is the dependency).
+func buildWF(wf wfAPI, p *Prog, from []exitRef, rec *recorder) (entries []string, exits []exitRef, err error) {
+	return buildWF2(wf, p, from, false, rec)
+}
+
+func buildWF2(wf wfAPI, p *Prog, from []exitRef, viaBranch bool, rec *recorder) (entries []string, exits []exitRef, err error) {
+	connect := func(n *compose.WorkflowNode) {
+		for _, f := range from {
+			if viaBranch {
+				n.AddInputWithOptions(f.key, f.maps, compose.WithNoDirectDependency())
+			} else {
+				n.AddInput(f.key, f.maps...)
+			}
+		}
+	}
+	switch p.Op {
+	case "node":
+		key := nodeKey(p.N.ID)
+		connect(wf.AddLambdaNode(key, mkLambda(p.N, rec), p.wrapOpts(rec)...))
+		return []string{key}, []exitRef{{key, p.OutMap.mappings()}}, nil
+	case "sub":
+		key := nodeKey(p.ID)
+		var sub compose.AnyGraph
+		sub, err = newGraph(p.Kids[0], p.Front, rec)
+		if err != nil {
+			return
+		}
+		opts := p.wrapOpts(rec)
+		opts = append(opts, p.subCompileOpts()...)
+		connect(wf.AddGraphNode(key, sub, opts...))
+		return []string{key}, []exitRef{{key, p.OutMap.mappings()}}, nil
+	case "seq":
+		cur := from
+		for i, k := range p.Kids {
+			var en []string
+			var ex []exitRef
+			en, ex, err = buildWF2(wf, k, cur, viaBranch && i == 0, rec)
+			if err != nil {
+				return
+			}
+			if i == 0 {
+				entries = en
+			}
+			cur = ex
+		}
+		return entries, cur, nil
+	case "par":
+		for _, k := range p.Kids {
+			var en []string
+			var ex []exitRef
+			en, ex, err = buildWF2(wf, k, from, viaBranch, rec)
+			if err != nil {
+				return
+			}
+			entries = append(entries, en...)
+			exits = append(exits, ex...)
+		}
+		return
+	case "branch":
+		if len(from) != 1 || from[0].maps != nil {
+			return nil, nil, errors.New("harness: a workflow branch needs exactly one unmapped predecessor")
+		}
+		var targets []string
+		for _, k := range p.Kids {
+			var en []string
+			var ex []exitRef
+			en, ex, err = buildWF2(wf, k, from, true, rec)
+			if err != nil {
+				return
+			}
+			if len(en) != 1 {
+				return nil, nil, errors.New("harness: a branch alternative needs exactly one entry")
+			}
+			targets = append(targets, en[0])
+			exits = append(exits, ex...)
+		}
+		wf.AddBranch(from[0].key, mkBranch(p.C, p.inMap(), targets, rec))
+		return nil, exits, nil
+	}
+	return nil, nil, errors.New("harness: bad op " + p.Op)
+}
+
+// ---------------------------------------------------------------- Chain front end
+
+// buildChain appends the stages of p (a chain-shaped program: nodes, nested graphs,
+// parallels of keyed single nodes, branches of single nodes) to ch.
+func buildChain[I, O any](ch *compose.Chain[I, O], p *Prog, rec *recorder) error {
+	stages := []*Prog{p}
+	if p.Op == "seq" {
+		stages = p.Kids
+	}
+	nodeOpts := func(q *Prog, dropOut bool) ([]compose.GraphAddNodeOpt, error) {
+		opts := q.wrapOptsNoOut(rec, dropOut)
+		opts = append(opts, compose.WithNodeKey(nodeKeyOf(q)))
+		if q.Op == "sub" {
+			opts = append(opts, q.subCompileOpts()...)
+		}
+		return opts, nil
+	}
+	single := func(q *Prog) (l *compose.Lambda, g compose.AnyGraph, err error) {
+		switch q.Op {
+		case "node":
+			return mkLambda(q.N, rec), nil, nil
+		case "sub":
+			g, err = newGraph(q.Kids[0], q.Front, rec)
+			return nil, g, err
+		}
+		return nil, nil, errors.New("harness: not a single chain node: " + q.Op)
+	}
+	for _, st := range stages {
+		switch st.Op {
+		case "node", "sub":
+			l, g, err := single(st)
+			if err != nil {
+				return err
+			}
+			opts, _ := nodeOpts(st, false)
+			if l != nil {
+				ch.AppendLambda(l, opts...)
+			} else {
+				ch.AppendGraph(g, opts...)
+			}
+		case "par":
+			par := compose.NewParallel()
+			for _, k := range st.Kids {
+				if k.W == nil || k.W.Out == nil {
+					return errors.New("harness: a chain parallel node needs an output key")
+				}
+				l, g, err := single(k)
+				if err != nil {
+					return err
+				}
+				opts, _ := nodeOpts(k, true)
+				if l != nil {
+					par.AddLambda(keyStr(*k.W.Out), l, opts...)
+				} else {
+					par.AddGraph(keyStr(*k.W.Out), g, opts...)
+				}
+			}
+			ch.AppendParallel(par)
+		case "branch":
+			var names []string
+			for i := range st.Kids {
+				names = append(names, fmt.Sprintf("alt%d", i))
+			}
+			cb := mkChainBranch(st.C, st.inMap(), names, rec)
+			for i, k := range st.Kids {
+				l, g, err := single(k)
+				if err != nil {
+					return err
+				}
+				opts, _ := nodeOpts(k, false)
+				if l != nil {
+					cb.AddLambda(names[i], l, opts...)
+				} else {
+					cb.AddGraph(names[i], g, opts...)
+				}
+			}
+			ch.AppendBranch(cb)
+		default:
+			return errors.New("harness: bad chain stage " + st.Op)
+		}
+	}
+	return nil
+}
+
+func nodeKeyOf(q *Prog) string {
+	if q.Op == "sub" {
+		return nodeKey(q.ID)
+	}
+	return nodeKey(q.N.ID)
+}
+
+func mkChainBranch(c *CSpec, isMap bool, names []string, rec *recorder) *compose.ChainBranch {
+	if isMap {
+		return mkChainBranchT[map[string]any](c, names, rec)
+	}
+	return mkChainBranchT[string](c, names, rec)
+}
+
+func mkChainBranchT[T any](c *CSpec, names []string, rec *recorder) *compose.ChainBranch {
+	pick := func(x any) (string, error) {
+		if c.Fail {
+			return "", errNode
+		}
+		return names[sizeVal(x)%len(names)], nil
+	}
+	if c.Collect {
+		return compose.NewStreamChainBranch(func(ctx context.Context, in *schema.StreamReader[T]) (string, error) {
+			rec.add(c.ID, "C")
+			cs, err := readAll(in)
+			if err != nil {
+				return "", err
+			}
+			x, err := concatAny(cs)
+			if err != nil {
+				return "", err
+			}
+			return pick(x)
+		})
+	}
+	return compose.NewChainBranch(func(ctx context.Context, in T) (string, error) {
+		rec.add(c.ID, "I")
+		return pick(any(in))
+	})
+}
+
 func newGraphT[I, O any](p *Prog, rec *recorder) (compose.AnyGraph, *compose.Graph[I, O], error) {
 	g := compose.NewGraph[I, O](compose.WithGenLocalState(genState))
-	_, exits, err := build(g, p, []string{compose.START}, rec)
+	lb := &loopBuild{byExit: map[string]*loopInfo{}}
+	_, exits, err := build(g, p, []string{compose.START}, rec, lb)
 	if err != nil {
 		return nil, nil, err
 	}
 	for _, e := range exits {
-		if err := g.AddEdge(e, compose.END); err != nil {
+		if err := lb.edge(g, e, compose.END); err != nil {
 			return nil, nil, err
 		}
+	}
+	if err := lb.finish(g, rec); err != nil {
+		return nil, nil, err
 	}
 	return g, g, nil
 }
@@ -471,14 +896,16 @@ func (r runnerT[I, O]) call(par int, x any, chunks []any) POut {
 	return o
 }
 
-func compileT[I, O any](p *Prog, dag bool, rec *recorder) (runner, error) {
-	_, g, err := newGraphT[I, O](p, rec)
+func compileT[I, O any](p *Prog, front string, dag bool, rec *recorder) (runner, error) {
+	_, g, err := newAnyT[I, O](p, front, rec)
 	if err != nil {
 		return nil, err
 	}
 	var opts []compose.GraphCompileOption
-	if dag {
+	if dag && front == "" {
 		opts = append(opts, compose.WithNodeTriggerMode(compose.AllPredecessor))
+	} else if front == "" && p.hasLoop() {
+		opts = append(opts, compose.WithMaxRunSteps(maxLoopSteps))
 	}
 	r, err := g.Compile(context.Background(), opts...)
 	if err != nil {
@@ -487,16 +914,16 @@ func compileT[I, O any](p *Prog, dag bool, rec *recorder) (runner, error) {
 	return runnerT[I, O]{r: r, rec: rec}, nil
 }
 
-func compile(p *Prog, dag bool, rec *recorder) (runner, error) {
+func compile(p *Prog, front string, dag bool, rec *recorder) (runner, error) {
 	switch {
 	case !p.inMap() && !p.outMap():
-		return compileT[string, string](p, dag, rec)
+		return compileT[string, string](p, front, dag, rec)
 	case p.inMap() && !p.outMap():
-		return compileT[map[string]any, string](p, dag, rec)
+		return compileT[map[string]any, string](p, front, dag, rec)
 	case !p.inMap() && p.outMap():
-		return compileT[string, map[string]any](p, dag, rec)
+		return compileT[string, map[string]any](p, front, dag, rec)
 	default:
-		return compileT[map[string]any, map[string]any](p, dag, rec)
+		return compileT[map[string]any, map[string]any](p, front, dag, rec)
 	}
 }
 
@@ -537,6 +964,12 @@ func packT[I, O any](sp *NSpec, rec *recorder) runner {
 }
 
 func pack(sp *NSpec, rec *recorder) runner {
+	if sp.AnyOut {
+		if sp.inMap() {
+			return packT[map[string]any, any](sp, rec)
+		}
+		return packT[string, any](sp, rec)
+	}
 	switch sp.Kind {
 	case 0:
 		return packT[string, string](sp, rec)
